@@ -95,9 +95,9 @@ def gen_cases(ctx):
         {"info": {"est_name": "b"}, "stats": [["rmse", 2.0]], "arrays": [["e", [3.0]]]},
         {"info": {"est_name": "c"}, "stats": [["rmse", 6.0]], "arrays": [["e", [4.0, 5.0, 6.0]]]}]}
     yield {"kind": "merge", "grid": True, "corpus": "none", "results": []}
-    for _ in range(500 if not th else 5000):
+    for _ in range(3000 if not th else 40000):
         yield gen_merge(r)
-    for _ in range(60 if not th else 800):
+    for _ in range(150 if not th else 2000):
         nf = r.randint(1, 5)
         files = []
         for i in range(nf):
